@@ -456,6 +456,34 @@ Definition time_case_ok
          end)
   end.
 
+(** [extra_case_ok movetime wtime btime stm limit had_book s_limit s_extra h_limit h_extra]
+    Extra time after a book move for the grid point whose budget [limit] (ns, as returned by
+    VerifSetupTimeControl) [time_case_ok] has compared.  All observations are int64 nanoseconds read
+    from the engine:
+    - [had_book] = Search.hadBookMove before a REAL depth-1 search of the grid point (StartSearch ->
+      run -> setupSearchLimits -> iterativeDeepening), on a Search object that still holds the time
+      limit and extra time of the previous case; [s_limit], [s_extra] = timeLimit / extraTime as the
+      timer reads them, taken after that search;
+    - [h_limit], [h_extra] = the same two after VerifAddExtraTime(p, limits, 2.0)
+      (setupSearchLimits, then addExtraTime(2.0) once).
+    True iff both time limits are the budget, the search's deadline is [deadline had_book ...], the
+    hook's extra time is [add_extra_time c10 ... 0 clock], and (the C13 fact, whenever the budget
+    itself is within the clock) the deadline is between the budget and the mover's clock.          *)
+Definition extra_case_ok
+  (movetime wtime btime : Z) (stm : N) (limit : Z)
+  (had_book : bool) (s_limit s_extra h_limit h_extra : Z) : bool :=
+  let clock := extra_clock wtime btime stm in
+  (s_limit =? limit) && (h_limit =? limit) &&
+  match deadline had_book true movetime limit clock with
+  | Some d => (d =? s_limit + s_extra) &&
+              (if (0 <=? limit) && (limit <=? clock) then (limit <=? d) && (d <=? clock) else true)
+  | None => false
+  end &&
+  match add_extra_time c10 true movetime limit 0 clock with
+  | Some e => e =? h_extra
+  | None => false
+  end.
+
 (** node limit checker: [limit] = Limits.Nodes > 0, [observed] = final
     Search.NodesVisited(), [ndraws] = number of root moves that lead to a
     repetition/50-move draw (the number of root moves is a safe
